@@ -55,6 +55,11 @@ where
 
     // Batch size for draining commit notifications
     max_batch_size: usize,
+
+    // Highest log index already handed to the SM worker. `last_applied` only moves when the worker
+    // has finished a chunk, so it must not be the only lower bound of the next range: a commit
+    // notification that arrives while a chunk is still being applied would dispatch it again.
+    dispatched_upto: std::sync::atomic::AtomicU64,
 }
 
 #[async_trait]
@@ -134,6 +139,7 @@ where
             sm_apply_tx: deps.sm_apply_tx,
             shutdown_signal: deps.shutdown_signal,
             max_batch_size: deps.max_batch_size,
+            dispatched_upto: std::sync::atomic::AtomicU64::new(0),
         }
     }
 
@@ -153,6 +159,14 @@ where
         let Some(range) = pending_range else {
             return Ok(());
         };
+        // Skip what is already on its way to the state machine.
+        let start = (*range.start())
+            .max(self.dispatched_upto.load(std::sync::atomic::Ordering::Acquire) + 1);
+        if start > *range.end() {
+            return Ok(());
+        }
+        let range = start..=*range.end();
+        let range_end = *range.end();
         let entries = self.raft_log.get_entries_range(range)?;
 
         debug!(
@@ -197,6 +211,7 @@ where
         } else {
             self.send_to_sm_worker(&mut command_batch).await?;
         }
+        self.dispatched_upto.fetch_max(range_end, std::sync::atomic::Ordering::AcqRel);
 
         // Snapshot check moved to ApplyCompleted handler in inbound event loop.
         // SM Worker applies entries asynchronously, so last_applied is stale here.
